@@ -154,7 +154,7 @@ def build(tree):
     def kvs(l):
         return {key: (Pseq([dec(v) for v in vs[1]]) if vs[0] == 'seq' else dec(vs[1])) for key, vs in l}
     if k == 'bind': return Pbind(kvs(tree[1]))
-    if k == 'mono': return Pmono(tree[1], kvs(tree[2]))
+    if k == 'mono': return Pmono(tree[1], kvs(tree[2]), articulate=bool(tree[3]) if len(tree) > 3 else False)
     if k == 'chain': return Pchain(*[build(t) for t in tree[1]])
     if k == 'par': return Ppar(*[build(t) for t in tree[1]])
     if k == 'delta': return Pdelta(dec(tree[1]), build(tree[2]))
